@@ -262,7 +262,7 @@ def check(ck, F, role, rule):
             fs = [a for a in (got.e.atoms(sp.Function) if isinstance(got, Sc) else []) if str(a.func).startswith("FLATSUM:")]
             okz = isinstance(got, Sc) and len(fs) >= 1 and eq(got.e, _mk(S["Q"], sfun(str(fs[0].func))(K), K))
             ck.require(okz, rule, f"{role}:init:{v}", f"the constant weight must start at zero (returned value {got!r} is not the plain sum of its updates)", where)
-    loops = [l for l in I.loop_log if l["fn"].endswith("flattened_constraints")]
+    loops = list(I.loop_log)  # the run interprets flattened_constraints only (helpers it delegates to included)
     outer = [l for l in loops if eq(l["n"], S["Q"])]
     ck.require(len(outer) == 1 and eq(outer[0]["off"], 0) and len(loops) == 1, rule, f"{role}:all-constraints", f"the outer loop does not run over all constraints exactly once (loops seen: {[(str(l['n']), str(l['off'])) for l in loops]})", where)
     # every weight is handed back exactly once.  (Which component the caller then uses for which role is decided
